@@ -129,7 +129,8 @@ def impl(c):
         # ndarray / DataFrame, float / integer-typed; fitted on the data, on a longer series, or on an object overwritten in
         # place afterwards; possibly used before on other data of the same index (also held by the very object predicted on)
         if c["det"] == "stat":  # univariate only
-            y = det.fit(X).predict(X)
+            D = core.wrap_container(dict(c, int_ok=False), X)  # array, or a frame whose labels are not the positions
+            y = det.fit(D).predict(D)
         else:
             data, _ = core.fit_for(det, c, X, reps=1)
             data = core.prior_use(det, c, X, data)
